@@ -7,3 +7,5 @@ python3 tools/extract_consts.py
 (cd lean && lake build Asn1Verif driver)
 [ -f harness/Cargo.lock ] || cp /repo/Cargo.lock harness/Cargo.lock
 (cd harness && cargo build --offline)
+# second feature configuration for C19 (+descriptive-deserialize-errors)
+(cd harness && cargo build --offline --target-dir target-diag --features diag)
